@@ -260,17 +260,22 @@ def confirm_creader(ctx, b, d, case):
 
 def confirm(ctx, b, d, case, key):
     """Re-execute one case and judge the fresh record with both trace specifications."""
-    recs, faults = fl.shard_run(b, "frame-write", [case], d, "again", nshards=1)
-    if faults:
-        raise vlib.MachineryFault("frame-write failed on re-execution")
-    w = recs[case["id"]]
-    sub = vlib.Ctx(ctx.prop, ctx.tier, ctx.seed)
-    rej = fl.validate_writer_runs(sub, [w], d)
-    tp = os.path.join(d, "again-emit.ndjson")
-    vlib.write_ndjson(tp, [fl.emit_events(w, case["noflush"])])
-    acc, rej2 = vlib.validate_trace(sub, "LZ4Frame_Trace", tp, cfg="LZ4Frame_Trace_C09", shards=1)
+    # a concurrent Writer's deviation may depend on the schedule: try again several times
+    for attempt in range(20 if case["opts"].get("conc", 1) != 1 else 2):
+        recs, faults = fl.shard_run(b, "frame-write", [case], d, "again", nshards=1)
+        if faults:
+            raise vlib.MachineryFault("frame-write failed on re-execution")
+        w = recs[case["id"]]
+        sub = vlib.Ctx(ctx.prop, ctx.tier, ctx.seed)
+        rej = fl.validate_writer_runs(sub, [w], d)
+        tp = os.path.join(d, "again-emit.ndjson")
+        vlib.write_ndjson(tp, [fl.emit_events(w, case["noflush"])])
+        acc, rej2 = vlib.validate_trace(sub, "LZ4Frame_Trace", tp, cfg="LZ4Frame_Trace_C09", shards=1)
+        if rej or rej2:
+            break
     if not rej and not rej2:
-        raise vlib.MachineryFault("rejection not reproducible for case %s" % json.dumps(case)[:300])
+        ctx.unreproducible("rejection not reproducible for case %s" % json.dumps(case)[:300])
+        return
     k = key if (rej and not rej2 and key) else why(case, w, None)
     slim = json.loads(json.dumps(w))
     for fr in slim["frames"]:
